@@ -2,7 +2,7 @@
    Only the property theorems, each closed by [exact] of a lemma of Proofs*.v and followed by
    Print Assumptions.  [run h gc_init] is the collector state after an arbitrary history [h] of
    mutator commands (Model.op) from GC:init. *)
-From C10 Require Import Model Proofs Safety Defects Frame Finalize Exit Garbage AllocSafe Abort OpFrame ReallocSafe.
+From C10 Require Import Model Proofs Safety Defects Frame Finalize Exit Garbage AllocSafe Abort OpFrame ReallocSafe EveryOp.
 Local Open Scope Z_scope.
 
 (* the tracked byte count always equals the sum of the registered sizes (as usize) *)
@@ -71,12 +71,12 @@ Print Assumptions C10_finalize_at_most_once_at_exit.
    gc:unregister(ptr) of the program: never both, never neither.
    [lcnt (log g) k] = number of calls of finalizer k, [dcnt (dropped g) k] = number of times it
    was dropped. *)
-Theorem C10_finalize_exactly_once_at_exit : forall h k,
+Theorem C10_finalize_exactly_once_or_unregistered_at_exit : forall h k,
   err (destroy (run h gc_init)) = None ->
   0 <= k < nextfid (destroy (run h gc_init)) ->
   lcnt (log (destroy (run h gc_init))) k + dcnt (dropped (destroy (run h gc_init))) k = 1.
 Proof. exact finalize_exactly_once_at_exit. Qed.
-Print Assumptions C10_finalize_exactly_once_at_exit.
+Print Assumptions C10_finalize_exactly_once_or_unregistered_at_exit.
 
 (* garbage does not accumulate: after a collection cycle run in any state a history can produce
    (tracked bytes non-zero, otherwise GC:collect returns at once) every block that is still
@@ -91,19 +91,28 @@ Print Assumptions C10_no_unbounded_garbage.
 
 (* collection triggered at an allocation point: whatever the pause and the history, an allocation
    (which may run a full cycle from inside GC:register) keeps every block reachable from the
-   roots and the stack words untouched, unfreed and unfinalized, and the fresh block itself
-   survives the cycle its own registration triggers *)
+   roots and the stack words untouched, unfreed and unfinalized *)
 Theorem C10_alloc_safe : forall h stk ptr size leaf extern fk tag a it,
   err (run h gc_init) = None ->
   ((0 <? size) && (size <? two64) && fresh ptr (run h gc_init) && (0 <=? fk) && (fk <=? 3)) = true ->
   reach (items (run h gc_init)) (mark_seeds stk (run h gc_init)) a -> lookup a (items (run h gc_init)) = Some it ->
   lookup a (items (apply_op (OAlloc ptr size leaf extern fk tag stk) (run h gc_init))) = Some it /\
   (forall e, In e (log (apply_op (OAlloc ptr size leaf extern fk tag stk) (run h gc_init))) -> ev_addr e = a ->
-     In e (log (run h gc_init))) /\
-  (exists itn, lookup ptr (items (apply_op (OAlloc ptr size leaf extern fk tag stk) (run h gc_init))) = Some itn /\
-     isize itn = size /\ iwords itn = repeat 0 (nwords size)).
-Proof. exact alloc_safe. Qed.
+     In e (log (run h gc_init))).
+Proof. exact alloc_safe_others. Qed.
 Print Assumptions C10_alloc_safe.
+
+(* ASSUMPTION made visible, not a fact about the code: the model hands the fresh pointer to the
+   cycle as a stack word (gc_alloc calls register with ptr :: stk: "the pointer returned by the
+   system allocator sits in a scanned register/stack slot while GC:register runs"); GIVEN that,
+   the fresh block survives the cycle its own registration triggers *)
+Theorem C10_alloc_fresh_survives_if_scanned : forall h stk ptr size leaf extern fk tag,
+  err (run h gc_init) = None ->
+  ((0 <? size) && (size <? two64) && fresh ptr (run h gc_init) && (0 <=? fk) && (fk <=? 3)) = true ->
+  exists itn, lookup ptr (items (apply_op (OAlloc ptr size leaf extern fk tag stk) (run h gc_init))) = Some itn /\
+     isize itn = size /\ iwords itn = repeat 0 (nwords size).
+Proof. exact alloc_fresh_survives_if_scanned. Qed.
+Print Assumptions C10_alloc_fresh_survives_if_scanned.
 
 (* what must not change: a store into a block, an explicit dealloc or an explicit unregister
    (with whatever finalizer they run) leave every OTHER registered block exactly as it was and
@@ -115,17 +124,16 @@ Proof. exact frame_no_cycle. Qed.
 Print Assumptions C10_explicit_ops_frame.
 
 (* collection triggered from inside a realloc that grows a block in place (GC:reregister ->
-   GC:step): every other reachable block is kept untouched, unfreed, unfinalized, and the grown
-   block itself survives with its old contents extended by zero words *)
+   GC:step): every other reachable block is kept untouched, unfreed, unfinalized.  (That the grown
+   block itself survives rests on the same assumption as above: the model scans p :: stk.) *)
 Theorem C10_realloc_grow_safe : forall h stk p n itp a it,
   err (run h gc_init) = None ->
-  lookup p (items (run h gc_init)) = Some itp -> p <> 0 -> 0 < n -> isize itp < n < two64 ->
+  lookup p (items (run h gc_init)) = Some itp -> 0 < p -> 0 < n -> isize itp < n < two64 ->
   reach (items (run h gc_init)) (mark_seeds stk (run h gc_init)) a ->
   lookup a (items (run h gc_init)) = Some it -> a <> p ->
   lookup a (items (apply_op (ORealloc p p n stk) (run h gc_init))) = Some it /\
-  (forall e, In e (log (apply_op (ORealloc p p n stk) (run h gc_init))) -> ev_addr e = a -> In e (log (run h gc_init))) /\
-  lookup p (items (apply_op (ORealloc p p n stk) (run h gc_init))) = Some (resize_item n itp).
-Proof. exact realloc_grow_safe. Qed.
+  (forall e, In e (log (apply_op (ORealloc p p n stk) (run h gc_init))) -> ev_addr e = a -> In e (log (run h gc_init))).
+Proof. exact realloc_grow_safe_others. Qed.
 Print Assumptions C10_realloc_grow_safe.
 
 (* ---- full-strength statements that were refuted before the repairs in /repo ---- *)
@@ -165,3 +173,16 @@ Theorem C10_repaired_code_facts :
   (2 <= DESTROY_SWEEPS)%nat.
 Proof. exact (conj FINALIZE_not_ROOT (conj auto_leaf_off (conj scan_size_test_on (conj resize_before_step destroy_resweeps)))). Qed.
 Print Assumptions C10_repaired_code_facts.
+
+(* ONE frame theorem for every command of every history (all twelve commands; the only exception
+   is a realloc that MOVES its block): every block that is reachable from the roots and the stack
+   words the command supplies, and is not the block the command is addressed to, is afterwards
+   registered with exactly the same flags, size, finalizer and contents, and nothing is logged
+   about it - whether or not the command runs a collection cycle *)
+Theorem C10_every_op_safe : forall h o a it, op_moves o = false ->
+  reach (items (run h gc_init)) (mark_seeds (op_stk o) (run h gc_init)) a ->
+  lookup a (items (run h gc_init)) = Some it -> ~ op_touches o a ->
+  lookup a (items (apply_op o (run h gc_init))) = Some it /\
+  (forall e, In e (log (apply_op o (run h gc_init))) -> ev_addr e = a -> In e (log (run h gc_init))).
+Proof. exact every_op_safe. Qed.
+Print Assumptions C10_every_op_safe.
